@@ -135,7 +135,7 @@ def plan_c17(prop, tier, seed, t0):
     os.makedirs(work)
     build_s = V.build_harness()
     mc, cases = plans.c18_cases(work, quick)
-    scenarios = c17_scenarios(seed, quick, cases, plans.call, plans.scn)
+    scenarios = c17_scenarios(seed, quick, cases, plans.call, plans.scn) + plans.hostile_token_scenarios(seed)
     scn_path = os.path.join(work, "scenarios.ndjson")
     V.write_scenarios(scn_path, scenarios)
     traces = V.dvh_replay(scn_path, os.path.join(work, "replay"), 8)
